@@ -42,6 +42,7 @@ type Run struct {
 	cs        *concState
 	fsCalls   []Value
 	gorPanic  any
+	gwritten  map[*ssa.Global]bool
 	ctxLabel  string
 	symbols   []*Term // every fresh symbol created on this path, in creation order
 	observed  []obs
